@@ -301,7 +301,7 @@ func Payload(r *mon.Rand, allowHuge bool) []byte {
 	switch r.Intn(3) {
 	case 0:
 		n = PayloadLens[r.Intn(len(PayloadLens))]
-		if !allowHuge && n >= 65535 {
+		if !allowHuge && n >= 65535 && r.Intn(4) != 0 {
 			n = 256
 		}
 	case 1:
@@ -318,7 +318,7 @@ func Payload(r *mon.Rand, allowHuge bool) []byte {
 
 // External draws external data: nil, empty, short or 256 bytes.
 func External(r *mon.Rand) []byte {
-	switch r.Intn(5) {
+	switch r.Intn(6) {
 	case 0:
 		return nil
 	case 1:
@@ -327,9 +327,19 @@ func External(r *mon.Rand) []byte {
 		return r.Bytes(1 + r.Intn(64))
 	case 3:
 		return r.Bytes(256)
+	case 4:
+		// length-prefix boundaries of the external_aad bstr inside the Sig_structure
+		n := Pick(r, 23, 24, 255, 255, 256, 65535, 65536)
+		if n >= 65535 && r.Intn(3) != 0 {
+			n = 255
+		}
+		return r.Bytes(n)
 	}
 	return nil
 }
+
+// Pick is mon.Pick for ints (keeps call sites short).
+func Pick(r *mon.Rand, xs ...int) int { return xs[r.Intn(len(xs))] }
 
 // ExternalClass names the class of external data.
 func ExternalClass(e []byte) string {
